@@ -429,7 +429,7 @@ def main(rep: Report, replay: dict | None) -> None:
             # ---- spec -> code: replay every edge, class by class as the dumps arrive
             results, all_walks, nedges, nstates = [], 0, 0, 0
             cov: dict[str, int] = {}
-            keep_every = 12 if quick else 40
+            keep_every = 30 if quick else 40
             tamper_task = None
             for cls in CLASSES:
                 res_e = f_edges[cls].result()
